@@ -1420,7 +1420,7 @@ fn read_command_div(cur: &mut SourceCursor, song: &mut Song, need2back: bool) ->
         match t.ttype {
             TokenType::Note => {
                 cnt += 1;
-                cnt += scan_chars(&t.data[1].to_s(), '^');
+                cnt += scan_chars(&t.data[2].to_s(), '^');
             }
             TokenType::NoteN => {
                 cnt += 1;
